@@ -159,7 +159,7 @@ var c01Alphabet = []string{
 	"(", ")", "[", "]", ".", "...", ",", "<", ">", "<=", ">=", "==", "===", "!=", "!==",
 	"+", "-", "*", "/", "%", "&", "|", "^", "&&", "||", "??", "!", "!.", "!!", "~", "?", ":", "=",
 	"true", "false", "null", "this", "ctx", "typeof",
-	"a", "$x", "_", "1", "2.5", ".5", "1e3", "'s'", "\"t\"",
+	"a", "$x", "_", "1", "2.5", ".5", "1e3", "'s'", "\"t\"", "''",
 	"#", "\\", "'u", "1a", "1_", "0x1", "\xe2\x80", "\xc2",
 }
 
